@@ -97,6 +97,7 @@ theorem mapSet_mapVal (f : ν → ν) (m : List (κ × ν)) (k : κ) (v : ν) :
     · simp only [mapSet, hk, Bool.false_eq_true, if_false, List.map_cons]
       rw [ih]
 
+omit [LawfulBEq κ] in
 theorem foldl_mapSet_mapVal (f : ν → ν) (l : List (κ × ν)) : ∀ acc : List (κ × ν),
     (l.foldl (fun m kv => mapSet m kv.1 kv.2) acc).map (fun kv => (kv.1, f kv.2)) =
       (l.map (fun kv => (kv.1, f kv.2))).foldl (fun m kv => mapSet m kv.1 kv.2) (acc.map (fun kv => (kv.1, f kv.2))) := by
@@ -107,6 +108,7 @@ theorem foldl_mapSet_mapVal (f : ν → ν) (l : List (κ × ν)) : ∀ acc : Li
     simp only [List.foldl_cons, List.map_cons]
     rw [ih, mapSet_mapVal]
 
+omit [LawfulBEq κ] in
 theorem mapOfList_mapVal (f : ν → ν) (l : List (κ × ν)) :
     (mapOfList l).map (fun kv => (kv.1, f kv.2)) = mapOfList (l.map (fun kv => (kv.1, f kv.2))) := by
   simpa [mapOfList] using foldl_mapSet_mapVal f l []
@@ -259,5 +261,62 @@ theorem normKVs_of_WF : ∀ kvs : List (Bytes × Obj), WFKV kvs → normKVs kvs 
     simp only [WFKV] at h
     simp only [normKVs]; rw [norm_of_WF v h.1, normKVs_of_WF kvs h.2]
 end
+
+end UgoVerif.Proofs.Enc
+
+namespace UgoVerif.Proofs.Enc
+open UgoVerif.Go UgoVerif.Model.Enc UgoVerif.Spec.Enc
+
+/-! ### `fixObjects` re-binds module items -/
+
+theorem goType_norm (o : Obj) : goType (norm o) = goType o := by
+  cases o with
+  | syncMap b kvs => cases b <;> rfl
+  | _ => rfl
+
+theorem lookupKV_normKVs (k : Bytes) (kvs : List (Bytes × Obj)) :
+    lookupKV k (normKVs kvs) = (lookupKV k kvs).map norm := by
+  induction kvs with
+  | nil => rfl
+  | cons kv rest ih =>
+    obtain ⟨k', v⟩ := kv
+    simp only [normKVs, lookupKV]
+    split
+    · rfl
+    · exact ih
+
+/-- every item of a decoded module map whose key the module defines with the same Go type
+    is replaced by the module's live object; the module-name entry is kept -/
+theorem fixItems_rebinds (attrs : List (Bytes × Obj)) (name : Bytes) : ∀ (items : List (Bytes × Obj)),
+    (∀ k v, (k, v) ∈ items → (k = attrModuleName ∧ v = .str name) ∨
+      (k ≠ attrModuleName ∧ lookupKV k attrs = some v)) →
+    fixItems attrs (normKVs items) = .ok items := by
+  intro items
+  induction items with
+  | nil => intro _; rfl
+  | cons kv rest ih =>
+    intro h
+    obtain ⟨k, v⟩ := kv
+    have hrest := ih (fun k' v' hm => h k' v' (List.mem_cons_of_mem _ hm))
+    simp only [normKVs, fixItems]
+    rcases h k v (List.mem_cons_self ..) with ⟨hk, hv⟩ | ⟨hk, hv⟩
+    · subst hk; subst hv
+      simp [hrest, norm]
+    · have hne : (k == attrModuleName) = false := by rw [beq_eq_false_iff_ne]; exact hk
+      simp only [hne, Bool.false_eq_true, if_false, hv, Option.getD_some, goType_norm, bne_self_eq_false, hrest]
+      rfl
+
+/-- `fix_rebinds`: decoding the encoding of an imported builtin-module constant and running
+    `fixObjects` with the same module map gives back the constant with its live objects:
+    the name lookup succeeds and every Go-type check passes (`goType (norm v) = goType v`). -/
+theorem fix_rebinds (mods : Mods) (name : Bytes) (attrs items : List (Bytes × Obj))
+    (hm : mods name = some attrs)
+    (hname : lookupKV attrModuleName items = some (.str name))
+    (hitems : ∀ k v, (k, v) ∈ items → (k = attrModuleName ∧ v = .str name) ∨
+      (k ≠ attrModuleName ∧ lookupKV k attrs = some v)) :
+    fixConst mods (.map (normKVs items)) = .ok (.map items) := by
+  unfold fixConst
+  simp only [lookupKV_normKVs, hname, Option.map_some, norm, hm, fixItems_rebinds attrs name items hitems]
+  rfl
 
 end UgoVerif.Proofs.Enc
